@@ -891,6 +891,10 @@ class Executor:
                     if hasattr(pycls, attr):
                         ca = getattr(pycls, attr)
                         if isinstance(ca, property):
+                            q = "%s:%s" % (ca.fget.__module__, ca.fget.__qualname__)
+                            if q in self.env.repo.funcs:
+                                self.env._force_inline = frozenset(set(self.env._force_inline) | {q})
+                                return self.call_func(FuncV(q, v), st, [], {}, None)
                             raise Unsupported("property %s.%s" % (o.cls, attr))
                         return [self.res(st, self.lift(ca, attr))]
                     raise Unsupported("unknown attribute %s.%s" % (o.cls, attr))
@@ -1422,6 +1426,16 @@ class Executor:
             if isinstance(o, HObj):
                 if self.env.setattr_hook(self, st, obj, o, attr, v):
                     return
+                pycls = self.env.pycls_of(o.cls)
+                ca = getattr(pycls, attr, None) if pycls is not None else None
+                if isinstance(ca, property) and ca.fset is not None:
+                    q = "%s:%s" % (ca.fset.__module__, ca.fset.__qualname__)
+                    if q in self.env.repo.funcs:
+                        self.env._force_inline = frozenset(set(self.env._force_inline) | {q})
+                        rs = self.call_func(FuncV(q, obj), st, [v], {}, None)
+                        if len(rs) != 1 or rs[0].exc is not None or rs[0].st is not st:
+                            raise Unsupported("property setter %s.%s forks or raises" % (o.cls, attr))
+                        return
                 o.fields[attr] = v
                 return
         if isinstance(obj, SymRef):
